@@ -965,6 +965,8 @@ func (r *cfgRun) openLong(l lkey, k probeKey, kind string, step int) *longConn {
 	return lc
 }
 
+var lateIdleDone int32
+
 // finish: after the reload the connection must still relay, to completion
 func (r *cfgRun) finishLong(lc *longConn) string {
 	defer lc.c.Close()
@@ -1295,6 +1297,12 @@ func runCfgHistory(ctx *Ctx, h *cfgHistory, dir string, withTraffic bool) (*cfgH
 		tg.release()
 		for _, lc := range longs {
 			ctx.Count("long_lived_" + lc.kind)
+			if ctx.Thorough() && ctx.Stats.Property == "C11" && lc.kind == "idle" && atomic.CompareAndSwapInt32(&lateIdleDone, 0, 1) {
+				// once per thorough run: the connection stays idle for longer than the server's read
+				// timeout (59 s) after the reload and must still relay afterwards
+				ctx.Count("long_lived_idle_62s_after_reload")
+				time.Sleep(62 * time.Second)
+			}
 			if msg := r.finishLong(lc); msg != "" {
 				out.Long = append(out.Long, msg)
 				r.find("C11/relayed-connection-broken-by-reload:"+lc.kind, fmt.Sprintf("step %d on %s: %s", i, pool.dialAddr(lc.l), msg), nil)
